@@ -47,10 +47,10 @@ Definition soft_thresholding_arr (ts v : list F) : list F :=
 (* l2_square_prox: tensor / (1 + 2 * regularizer) *)
 Definition l2_square_prox (t : F) (v : list F) : list F := map (fun x => x /f (one +f two *f t)) v.
 
-(* l2_prox: norm = tl.norm(tensor); bigger = norm if norm > reg else reg;
-   tensor - (tensor * reg / bigger).   [s] is the value of tl.norm(tensor). *)
+(* l2_prox: norm = tl.norm(tensor); if norm > regularizer: tensor - (tensor * regularizer / norm), else: tensor * 0
+   (the branch structure of the repaired code, 5c51b61).   [s] is the value of tl.norm(tensor). *)
 Definition l2_prox_with (s t : F) (v : list F) : list F :=
-  let big := if t <f s then s else t in map (fun x => x -f (x *f t) /f big) v.
+  if t <f s then map (fun x => x -f (x *f t) /f s) v else map (fun x => x *f zero) v.
 
 (* smoothness_prox: solve (diag(2t+1) + offdiag(-t)) x = v.  Row i of the coded matrix applied to x: *)
 Fixpoint sm_apply (t prev : F) (x : list F) : list F :=
